@@ -551,6 +551,10 @@ func (vc *VC) StrSub(s, lo, hi *Term) *Term {
 
 // StrMk builds a string from bytes content[off .. off+n).
 func (vc *VC) StrMk(content, off, n *Term) *Term {
+	// string([]byte(s)) == s
+	if content.IsApp && content.Op == "gstr.bytes" && off.IsConst && off.Int.Sign() == 0 && n == StrLen(content.Args[0]) {
+		return content.Args[0]
+	}
 	r := App("gstr.mk", StrSort, content, off, n)
 	if vc.strDone[r] {
 		return r
@@ -671,6 +675,7 @@ func (vc *VC) makeIface(st *State, v Val, t types.Type) *IfaceV {
 		data = Fresh("boxed", IntSort)
 		vc.boxed[data] = v
 	}
+	vc.boxedType[data] = t
 	return &IfaceV{Tag: tag, Data: data}
 }
 
